@@ -104,6 +104,15 @@ void X__ZNSt12out_of_rangeC1EPKc(uint8_t* p, uint8_t* m) {}
 void X__ZNSt12out_of_rangeD1Ev(uint8_t* p) {}
 void X__ZNSt16invalid_argumentC1EPKc(uint8_t* p, uint8_t* m) {}
 void X__ZNSt16invalid_argumentD1Ev(uint8_t* p) {}
+/* std::ios_base::failure (GIL's io_error): object construction has no observable state in the model */
+void X__ZNSt8ios_base7failureB5cxx11C1EPKcRKSt10error_code(uint8_t* self, uint8_t* msg, uint8_t* ec) {}
+void X__ZNSt8ios_base7failureB5cxx11C1ERKNSt7__cxx1112basic_stringIcSt11char_traitsIcESaIcEEERKSt10error_code(uint8_t* self, uint8_t* msg, uint8_t* ec) {}
+void X__ZNSt8ios_base7failureB5cxx11C2EPKcRKSt10error_code(uint8_t* self, uint8_t* msg, uint8_t* ec) {}
+void X__ZNSt8ios_base7failureB5cxx11D1Ev(uint8_t* self) {}
+void X__ZNSt8ios_base7failureB5cxx11D2Ev(uint8_t* self) {}
+uint8_t G__ZTVNSt8ios_base7failureB5cxx11E[64];
+static uint8_t vp_iocat[8];
+uint8_t* X__ZSt17iostream_categoryv(void) { return vp_iocat; }
 static void vp_throw(uint8_t* ti) { uint8_t* p = malloc(8); VP_ASSUME(p != 0); vp_exc_obj = p; vp_exc_type = ti; vp_exc_pending = 1; }
 void X__ZSt17__throw_bad_allocv(void) { vp_throw(G__ZTISt9bad_alloc); }
 void X__ZSt28__throw_bad_array_new_lengthv(void) { vp_throw(G__ZTISt20bad_array_new_length); }
@@ -231,4 +240,14 @@ uint64_t X_strlen(uint8_t* a) { uint64_t i = 0; while (a[i]) i++; return i; }
 uint8_t* X_memchr(uint8_t* a, uint32_t c, uint64_t n) { for (uint64_t i = 0; i < n; i++) if (a[i] == (uint8_t)c) return a + i; return 0; }
 uint32_t X_isdigit(uint32_t c) { return c >= '0' && c <= '9'; }
 uint32_t X_isspace(uint32_t c) { return c == ' ' || (c >= 9 && c <= 13); }
+/* strtol / atoi, base 10 (what glibc's inline atoi calls): optional spaces and sign, digits, saturating */
+uint64_t X_strtol(uint8_t* s, uint8_t* endp, uint32_t base) {
+  uint64_t i = 0; int neg = 0; int64_t v = 0;
+  while (s[i] == ' ' || (s[i] >= 9 && s[i] <= 13)) i++;
+  if (s[i] == '-') { neg = 1; i++; } else if (s[i] == '+') i++;
+  while (s[i] >= '0' && s[i] <= '9') { int64_t dgt = s[i] - '0'; if (v > (INT64_MAX - dgt) / 10) v = INT64_MAX; else v = v * 10 + dgt; i++; }
+  if (endp) *(uint8_t**)endp = s + i;
+  return (uint64_t)(neg ? -v : v);
+}
+uint32_t X_atoi(uint8_t* s) { return (uint32_t)X_strtol(s, 0, 10); }
 void vp_rt_init(void) { }
